@@ -5,6 +5,8 @@ the real crate and diffs the two response streams.
 -/
 import Driver.Codec
 import EvalexprVerif.Spec.RefArith
+import Driver.Gen
+import EvalexprVerif.Spec.RefBuiltin
 
 open Evalexpr Evalexpr.Codec
 
@@ -66,6 +68,7 @@ def encUnit (r : Res Unit) : String := encRes (fun _ => "()") r
 def hexArg (s : String) : Str := strOfHex (s.toList.drop 1)   -- arguments are written x<hex>
 
 def handle (sess : Session) (line : String) : Session × String :=
+  if line.startsWith "#" then (sess, "#") else
   match line.trimAscii.toString.splitOn " " with
   | ["tok", src] =>
     (sess, encRes (fun ts => " ".intercalate (ts.map encToken)) (tokenize (hexArg src)))
@@ -162,11 +165,53 @@ def handle (sess : Session) (line : String) : Session × String :=
     match binOpOf (String.ofList (hexArg op)), decValueStr a, decValueStr b with
     | some o, some x, some y => (sess, encRef (Spec.refBinary o x y))
     | _, _, _ => (sess, "bad-op")
+  | ["spec.builtin", name, a] =>
+    match builtinFunction (hexArg name), decValueStr a with
+    | some b, some x =>
+      (sess, match Spec.refBuiltin b x with
+        | .value v => "value " ++ encValue v
+        | .error => "error"
+        | .any => "any"
+        | .smallestOf vs => "smallest " ++ encValue (.tuple vs)
+        | .largestOf vs => "largest " ++ encValue (.tuple vs))
+    | none, some _ => (sess, "nobuiltin")
+    | _, _ => (sess, "bad-op")
   | ["spec.unop", op, a] =>
     match op, decValueStr a with
     | "neg", some x => (sess, encRef (Spec.refUnary .neg x))
     | "not", some x => (sess, encRef (Spec.refUnary .not x))
     | _, _ => (sess, "bad-op")
+  | ["gen.c02", seed, depth] =>
+    let (e, r) := Gen.genExpr ⟨seed.toNat!⟩ depth.toNat!
+    let (src, _) := Gen.renderTokens (Spec.render e) r
+    (sess, s!"x{hexOfStr src} {encNode ⟨.rootNode, [Spec.toTree e]⟩}")
+  | ["gen.c02sys", idx] =>
+    let e := Gen.sysExpr idx.toNat!
+    let (src, _) := Gen.renderTokens (Spec.render e) ⟨idx.toNat! + 17⟩
+    (sess, s!"x{hexOfStr src} {encNode ⟨.rootNode, [Spec.toTree e]⟩}")
+  | ["gen.c05", seed, depth] =>
+    let (l, r) := Gen.genOperand.genLevel ⟨seed.toNat!⟩ depth.toNat!
+    let (src, _) := Gen.renderTokens (Spec.renderLevel l) r
+    (sess, s!"x{hexOfStr src} {encNode (Spec.levelTree l)}")
+  | ["gen.c07", seed, n] =>
+    let (ts, r) := Gen.genTokens ⟨seed.toNat!⟩ n.toNat!
+    let (src1, r) := Gen.renderTokens ts r
+    let (src2, _) := Gen.renderTokens ts r
+    (sess, s!"x{hexOfStr src1} x{hexOfStr src2} {Gen.encTokens ts}")
+  | ["gen.c07sys", idx, len] =>
+    -- the idx-th token sequence of length len over the token pool, two gap assignments
+    let n := Gen.tokenPool.size
+    let ts : List Token := (List.range len.toNat!).map fun k => Gen.tokenPool[(idx.toNat! / n ^ k) % n]!
+    let (src1, r) := Gen.renderTokens ts ⟨idx.toNat! * 7 + 3⟩
+    let (src2, _) := Gen.renderTokens ts r
+    (sess, s!"x{hexOfStr src1} x{hexOfStr src2} {Gen.encTokens ts}")
+  | ["spec.illformed", src] =>
+    match tokenize (hexArg src) with
+    | .error e => (sess, "lexerr " ++ encErr e)
+    | .ok ts =>
+      let t := tokensToOperatorTree ts
+      let d := match t with | .ok n => Spec.deficient n | .error _ => false
+      (sess, s!"ill={Spec.illFormed ts} balanced={Spec.balanced ts} juxtaposed={Spec.juxtaposedIn none ts} lacks={Spec.lacksOperandIn none ts} modelbuilds={match t with | .ok _ => true | .error _ => false} modeldeficient={d}")
   | ["f64parse", w] =>
     (sess, match F64.parseBits (hexArg w) with
       | some b => if (b &&& 0x7fffffffffffffff) > 0x7ff0000000000000 then "nan" else hex16 b
